@@ -115,7 +115,7 @@ def promoted_value(fn, owner_path, idx):
     if key in _PROMOTED_CACHE:
         return _PROMOTED_CACHE[key]
     from .core import Fn
-    owner = fn if fn.path == owner_path else fn.facts.fns.get(owner_path)
+    owner = fn if fn.path == owner_path else (fn.facts.fns.get(owner_path) or getattr(fn.facts, "dropped", {}).get(owner_path))
     res = ("const", ("promoted", owner_path, idx))
     if owner is not None:
         proms = owner.j.get("promoted") or []
